@@ -136,5 +136,6 @@ void msg_queue_insert(struct lp_msg *msg)
 	msg->next = atomic_load_explicit(list_p, memory_order_relaxed);
 	while(unlikely(!atomic_compare_exchange_weak_explicit(list_p, &msg->next, msg, memory_order_release,
 	    memory_order_relaxed)))
+	VERIF_LOOP(insert_cas)
 		spin_pause();
 }
